@@ -158,7 +158,13 @@ def _handle_ConnectionUp (event):
     # the next link event to fix them up.
     _update_tree()
 
-  if _hold_down:
+  if _hold_down or _noflood_by_default:
+    # Once a complete discovery cycle has had the time to run, push the
+    # tree to this switch whether or not a link event comes along: with
+    # hold-down, link events before then have skipped it, and with
+    # no-flood-by-default the ports on which no link was discovered (the
+    # host-facing ones -- all of them on a switch without neighbors) would
+    # otherwise keep the NO_FLOOD we have just set.
     t = Timer(core.openflow_discovery.send_cycle_time + 1, _update_tree,
               kw={'force_dpid':event.dpid})
 
